@@ -24,7 +24,7 @@ for s, ir, mr in zip(scs, impl, model):
     it, mt = prio.PrioTrace(ir.vals, nops), prio.PrioTrace(mr, nops)
     allbuf = all(b for _, b in s.meta['cfg'])
     if not allbuf:
-        it.ops = [o[:3] for o in it.ops]; mt.ops = [o[:3] for o in mt.ops]
+        it.ops = [o[:3] + o[4:] for o in it.ops]; mt.ops = [o[:3] + o[4:] for o in mt.ops]
     same = it.error == mt.error and it.ops == mt.ops and it.closed == mt.closed and it.err == mt.err and not it.noterm
     if not same:
         bad += 1
